@@ -1,8 +1,10 @@
-"""Copy a confirmed round-3 sub-agent mutation into /verif/seeded/<prop>-<slug>/ (patch.diff, demo.py, meta.json).
-usage: keep_mutation.py Mxx <patch index> Cyy <slug> "<what it needs to manifest>" """
+"""Copy a confirmed sub-agent mutation (rounds 3 and 4) into /verif/seeded/<prop>-<slug>/ (patch.diff, demo.py, meta.json).
+usage: keep_mutation.py Mxx <patch index> Cyy <slug> "<what it needs to manifest>" [round] [base commit note] """
 import json, shutil, sys
 from pathlib import Path
 mid, idx, pid, slug, needs = sys.argv[1:6]
+rnd = int(sys.argv[6]) if len(sys.argv) > 6 else 3
+base = sys.argv[7] if len(sys.argv) > 7 else "d70e85f (the /repo HEAD of round 3)"
 src = Path(f"/tmp/wt/out/{mid}")
 ev = json.loads((src / "eval.json").read_text())
 e = [r for r in ev if r["patch"].endswith(f"patch{idx}.diff")][0]
@@ -16,7 +18,7 @@ for extra in src.glob("_*.py"):
     shutil.copy(extra, dst / extra.name)
 meta = {
     "property": pid,
-    "round": 3,
+    "round": rnd,
     "origin": "independent sub-agent given only two property texts and a scratch worktree of /repo (nothing from /verif)",
     "needs_to_manifest": needs,
     "confirmed_by_me": {
@@ -27,7 +29,7 @@ meta = {
         "commands": [f"git -C /tmp/wt/{mid} apply patch.diff", f"PYTHONPATH=/tmp/wt/{mid}/src /venv/bin/python demo.py",
                      f"/venv/bin/python /tmp/wt/tools/run_baseline.py /tmp/wt/{mid} -n 8", f"git -C /tmp/wt/{mid} checkout -- ."],
     },
-    "base_commit_of_patch": "d70e85f (the /repo HEAD of round 3)",
+    "base_commit_of_patch": base,
 }
 (dst / "meta.json").write_text(json.dumps(meta, indent=1))
 print("kept", dst)
